@@ -681,15 +681,15 @@ func jobsFor(c *vk.Ctx, p param) (jobs []job) {
 	if c.Quick() {
 		switch p {
 		case param{2, 1}: // the expensive one (up to 54 rounds per diff)
+			return []job{{F, F, trInproc, 0}, {U, R, trInproc, 9}, {R, U, trInproc, 9},
+				{F, F, trHs, 27}, {F, F, trKv, 27}, {U, R, trHs, 27}, {R, U, trKv, 27}}
+		case param{16, 4}:
 			return []job{{F, F, trInproc, 0}, {U, R, trInproc, 3}, {R, U, trInproc, 3},
 				{F, F, trHs, 9}, {F, F, trKv, 9}, {U, R, trHs, 9}, {R, U, trKv, 9}}
-		case param{16, 4}:
-			return []job{{F, F, trInproc, 0}, {U, R, trInproc, 0}, {R, U, trInproc, 0},
-				{F, F, trHs, 3}, {F, F, trKv, 3}, {U, R, trHs, 3}, {R, U, trKv, 3}}
 		case param{3, 2}:
-			return []job{{F, F, trInproc, 0}, {U, U, trInproc, 3}, {R, R, trInproc, 3}, {U, F, trHs, 9}, {F, R, trKv, 9}}
+			return []job{{F, F, trInproc, 0}, {U, U, trInproc, 9}, {R, R, trInproc, 9}, {U, F, trHs, 27}, {F, R, trKv, 27}}
 		default: // (0,0) behaves as (2,1): only the clamping is of interest
-			return []job{{F, F, trInproc, 3}, {U, R, trInproc, 9}, {F, F, trHs, 27}, {F, F, trKv, 27}}
+			return []job{{F, F, trInproc, 9}, {U, R, trInproc, 27}, {F, F, trHs, 81}, {F, F, trKv, 81}}
 		}
 	}
 	if p.Df == 0 || p.Thr == 0 {
